@@ -42,3 +42,125 @@ def rule_no_dynamic(ctx, rule='R00.dyn'):
     else:
         ctx.holds(rule, 'package', 'no setattr/exec/eval/__getattr__/metaclass in %d modules (positive control: %d hits)'
                   % (len(ctx.prog.modules), len(ctl)), nontrivial=False)
+
+
+# ---------------------------------------------------------------------------------------------------------------------
+# R07.v: no store through a reshape()/ravel() of an array the function did not allocate
+# ---------------------------------------------------------------------------------------------------------------------
+_RESHAPERS = ('reshape', 'ravel')
+
+
+def _is_existing_array_expr(e):
+    """an expression that names existing storage (a parameter, an attribute chain, a subscript/transpose of one) rather
+    than the fresh result of a computation"""
+    while True:
+        if isinstance(e, ast.Name):
+            return True
+        if isinstance(e, ast.Attribute):
+            if e.attr == 'T':
+                e = e.value
+                continue
+            e = e.value
+            continue
+        if isinstance(e, ast.Subscript):
+            e = e.value
+            continue
+        return False
+
+
+def _reshape_source(v):
+    """for `E.reshape(..)`, `E.ravel()`, `np.reshape(E, ..)`, `np.ravel(E)`: the expression E, else None"""
+    if isinstance(v, ast.Attribute) and v.attr == 'T':
+        return _reshape_source(v.value)
+    if isinstance(v, ast.Call) and isinstance(v.func, ast.Attribute) and v.func.attr in _RESHAPERS:
+        base = v.func.value
+        if isinstance(base, ast.Name) and base.id in ('np', 'numpy') and v.args:
+            return v.args[0]
+        return base
+    return None
+
+
+def reshape_stores(fn):
+    """(line, name, source text) for every store through a name bound to a reshape/ravel of existing storage.
+    numpy returns a *view* from reshape only when the strides allow it and silently a *copy* otherwise (a transposed,
+    Fortran-ordered or sliced caller array): a store through the result may therefore never reach the array."""
+    bound = {}
+    hits = []
+    for st in ast.walk(fn):
+        if isinstance(st, ast.Assign) and len(st.targets) == 1 and isinstance(st.targets[0], ast.Name):
+            src = _reshape_source(st.value)
+            if src is not None and _is_existing_array_expr(src):
+                bound[st.targets[0].id] = (st.lineno, ast.unparse(src))
+            elif st.targets[0].id in bound and st.lineno > bound[st.targets[0].id][0]:
+                pass    # re-binding is handled below by line order
+    if not bound:
+        return hits
+    rebinds = {}
+    for st in ast.walk(fn):
+        if isinstance(st, ast.Assign):
+            for t in st.targets:
+                if isinstance(t, ast.Name) and t.id in bound and _reshape_source(st.value) is None:
+                    rebinds.setdefault(t.id, []).append(st.lineno)
+    for st in ast.walk(fn):
+        tgt = None
+        if isinstance(st, ast.Assign):
+            for t in st.targets:
+                if isinstance(t, ast.Subscript) and isinstance(t.value, ast.Name):
+                    tgt = t.value.id
+        elif isinstance(st, ast.AugAssign):
+            t = st.target
+            if isinstance(t, ast.Subscript) and isinstance(t.value, ast.Name):
+                tgt = t.value.id
+            elif isinstance(t, ast.Name):
+                tgt = t.id
+        elif isinstance(st, ast.Call):
+            for k in st.keywords:
+                if k.arg == 'out' and isinstance(k.value, ast.Name):
+                    tgt = k.value.id
+                    st = k.value
+        if tgt in bound and getattr(st, 'lineno', 0) > bound[tgt][0] and \
+                not any(bound[tgt][0] < ln <= st.lineno for ln in rebinds.get(tgt, ())):
+            hits.append((st.lineno, tgt, bound[tgt][1]))
+    return sorted(set(hits))
+
+
+_RESHAPE_CONTROL = '''
+def f(marray, dom):
+    pairs = marray.data.reshape((marray.length, -1))
+    pairs[:] = dom.to_fourier(pairs.T).T
+def g(x):
+    flat = np.ravel(x)
+    flat *= 2.0
+def ok(x):
+    y = (x * 2.0).reshape((-1,))
+    y[0] = 1.0
+    z = x.reshape((-1, 1, 1))
+    return z * y
+'''
+
+
+def rule_reshape_stores(ctx, rule='R07.v'):
+    """no function of the package stores through reshape()/ravel() of an array it did not allocate itself (expected count
+    zero; positive control on every run)"""
+    ctl = [h for fn in ast.parse(_RESHAPE_CONTROL).body for h in reshape_stores(fn)]
+    if len(ctl) != 2:
+        ctx.undecided(rule, 'positive-control', 'the control snippet gave %d hits, expected 2' % len(ctl))
+        return
+    hits = []
+    nf = 0
+    for m in ctx.prog.modules.values():
+        if '/test/' in m.relpath:
+            continue
+        for n in ast.walk(m.tree):
+            if isinstance(n, (ast.FunctionDef, ast.AsyncFunctionDef)):
+                nf += 1
+                for line, name, src in reshape_stores(n):
+                    hits.append((m.relpath, line, n.name, name, src))
+    for rel, line, fname, name, src in hits:
+        ctx.violation(rule, '%s:%s' % (rel, fname), 'store-through-reshape:%s' % name,
+                      '`%s` is a reshape/ravel of the existing array `%s` and is stored through: numpy returns a copy instead of a view '
+                      'when that array is not contiguous in the reshaped axes (transposed, Fortran-ordered or sliced data), and '
+                      'the store is then silently lost' % (name, src), '%s:%d' % (rel, line))
+    if not hits:
+        ctx.holds(rule, 'package', 'no store through reshape()/ravel() of existing storage in %d functions (positive control: 2 hits)' % nf,
+                  nontrivial=False)
